@@ -52,6 +52,21 @@ theorem search_searchOK (fn : Fn R) (K : Tissue.Consts R) (cells : List (Tissue.
     SearchOK (searchTable fn K cells) :=
   fun k n j hk _ hc => searchTable_T fn K cells hF k j n hk hc
 
+/-- **`SearchOK` does not depend on the schedule of the search**: the table reached from the reset table by ANY sequence of
+    `set_coupled_node_and_min_distance` calls of the form `resolve_contact` makes (on an existing node of an epithelial cell, with an
+    existing node of another epithelial cell) satisfies it — so it also holds for every interleaving of the locked writes of the OpenMP
+    threads, whatever the racing reads of closest distances decided -/
+theorem searchOK_any_schedule (K : Tissue.Consts R) (cells : List (Tissue.Cell R)) (ws : List (Nat × Nat × (Nat × Nat) × R))
+    (hw : ∀ w ∈ ws, okT cells w.1 w.2.1 ∧ okT cells w.2.2.1.1 w.2.2.1.2 ∧ w.2.2.1.1 ≠ w.1) :
+    SearchOK (toPop (writeMut cells (ws.foldl setCoupW (cells.map (resetMut K)).toArray))) :=
+  fun k n j hk _ hc => searchTable_T_of_step K cells _ (step_writes (okT cells) ws hw _) k j n hk hc
+
+/-- the search couples nodes of EPITHELIAL cells only (both ends; `resolve_contact` couples under type id 0 / 0 only) -/
+theorem search_couples_epithelial (fn : Fn R) (K : Tissue.Consts R) (cells : List (Tissue.Cell R)) (hF : FacesInRange cells)
+    (k j : Slot) (n : Coupling.CNode R) (hk : Coupling.get (searchTable fn K cells) k = some n) (hc : n.coup = some j) :
+    ∃ c1 c2, cells[k.1]? = some c1 ∧ cells[j.1]? = some c2 ∧ c1.k.kind = 0 ∧ c2.k.kind = 0 :=
+  searchTable_T_kinds fn K cells hF k j n hk hc
+
 /-- … hence loop (A) never reads out of bounds -/
 theorem search_rangeOK (fn : Fn R) (K : Tissue.Consts R) (cells : List (Tissue.Cell R)) (hF : FacesInRange cells) :
     RangeOK (searchTable fn K cells) := rangeOK_of_searchOK _ (search_searchOK fn K cells hF)
@@ -152,6 +167,11 @@ theorem facesLive_of_cellMeshOk (cells : List (CellTR R)) (h : ∀ c ∈ cells, 
 theorem searchR_searchOK (fn : Fn R) (K : Tissue.Consts R) (cells : List (CellTR R)) (hF : FacesLive cells) :
     SearchOK (searchTableR fn K cells) :=
   fun k n j hk hu hc => searchTable_R fn K cells hF k j n hk hu hc
+
+theorem searchR_couples_epithelial (fn : Fn R) (K : Tissue.Consts R) (cells : List (CellTR R)) (hF : FacesLive cells)
+    (k j : Slot) (n : Coupling.CNode R) (hk : Coupling.get (searchTableR fn K cells) k = some n) (hu : n.used = true)
+    (hc : n.coup = some j) : ∃ c1 c2, cells[k.1]? = some c1 ∧ cells[j.1]? = some c2 ∧ c1.k.kind = 0 ∧ c2.k.kind = 0 :=
+  searchTable_R_kinds fn K cells hF k j n hk hu hc
 
 theorem searchR_rangeOK (fn : Fn R) (K : Tissue.Consts R) (cells : List (CellTR R)) (hF : FacesLive cells) :
     RangeOK (searchTableR fn K cells) := rangeOK_of_searchOK _ (searchR_searchOK fn K cells hF)
